@@ -92,6 +92,10 @@ pub fn generic_field_alphabet(params: ParamForm, include_cf3: bool) -> Vec<Field
         v.push(Field::new(Ty::Vec(b(Ty::Compact(b(Ty::Param(0)))))));
     }
     v.push(Field::compact(U32));
+    if !matches!(params, ParamForm::ConfigSkipped | ParamForm::ConfigKept) {
+        v.push(Field::new(Ty::Cow(b(Ty::Named(G_H, vec![Ty::Param(0)])))));
+    }
+    v.push(Field::new(Ty::Cow(b(Ty::Named(G_M, vec![])))));
     v
 }
 
@@ -295,6 +299,7 @@ fn strict_subterms(ty: &Ty, out: &mut Vec<Ty>) {
         | Ty::Range(t)
         | Ty::RangeInclusive(t)
         | Ty::Compact(t)
+        | Ty::Cow(t)
         | Ty::Phantom(t) => push(t, out),
         Ty::Result(a, c) | Ty::BTreeMap(a, c) | Ty::BitVecG(a, c) => {
             push(a, out);
@@ -503,7 +508,7 @@ impl<'a> Expect<'a> {
             ),
             Ty::Option(t) => format!("::core::option::Option<{}>", n(t)),
             Ty::Result(x, y) => format!("::core::result::Result<{},{}>", n(x), n(y)),
-            Ty::Box(t) => n(t),
+            Ty::Box(t) | Ty::Cow(t) => n(t),
             Ty::BTreeMap(k, v) => {
                 if let Some(sub) = self.subst {
                     if let Some(s) = sub(&["BTreeMap".to_string()], &[n(k), n(v)]) {
@@ -821,7 +826,8 @@ impl Driver for DFamily {
         let mut v = vec![];
         for form in self.forms.iter().copied() {
             for lead in self.leads.iter().copied() {
-                for neighbours in 0..(if self.with_neighbours { 3u8 } else { 1 }) {
+                // digit-suffixed neighbours are combined with the plain lead order only
+                for neighbours in 0..(if self.with_neighbours && lead == 0 { 3u8 } else { 1 }) {
                     v.push(FamState {
                         members: vec![Member { form, fields: vec![] }],
                         neighbours,
@@ -927,6 +933,7 @@ pub fn tys_equiv(prog: &Program, a: &Ty, b_: &Ty, assumed: &mut HashSet<(usize, 
         | (BinaryHeap(x), BinaryHeap(y))
         | (Range(x), Range(y))
         | (RangeInclusive(x), RangeInclusive(y))
+        | (Cow(x), Cow(y))
         | (Compact(x), Compact(y)) => tys_equiv(prog, x, y, assumed),
         (Result(x1, x2), Result(y1, y2)) | (BTreeMap(x1, x2), BTreeMap(y1, y2)) | (BitVecG(x1, x2), BitVecG(y1, y2)) => {
             tys_equiv(prog, x1, y1, assumed) && tys_equiv(prog, x2, y2, assumed)
